@@ -20,7 +20,7 @@ CHECKS = {
         design_ref="4/C20"),
     "C10": dict(
         engine="validate", category="exploration",
-        technique="property-based fault injection over valid documents with an independent executable model of the documented validation rules (differential oracle on the exact code set), plus totality (no panic) over value-mutated documents",
+        technique="property-based fault injection over valid documents with an independent executable model of the documented validation rules (differential oracle on the exact code set), plus totality (no panic) over value-mutated documents; thorough tier additionally: coverage-guided fuzzing (libFuzzer target pragmatic_values, structure-aware value mutation of the repository's example problems, totality oracle inside the target)",
         text="Valid problems from the by-construction generator are turned into JSON values and broken by 1-3 generated faults out of ~90 kinds covering every documented rule (ids, windows, demands, tasks, vehicles, shifts, breaks, reloads, relations, matrices, profiles, objectives) plus undocumented-but-well-formed value faults (malformed dates, wrong arities, empty collections, sparse indices, ragged matrices); the reader must return Ok or Err(codes) without panicking, and the code set must equal the set computed by the harness' own rule model; the third-of-three element and rarely read fields (services, replacements, second shift, required breaks) are targeted on purpose. Found ten defect families in the validator (recorded in known_findings.json, several repaired).",
         note="Trusted: the rule model in harness/src/engines/validate.rs, derived from docs/src/concepts/pragmatic/errors/index.md. Rules whose documented wording is ambiguous are counted, not asserted (listed in DESIGN.md).",
         design_ref="4/C10"),
@@ -32,7 +32,7 @@ CHECKS = {
         design_ref="4/C12"),
     "C11": dict(
         engine="roundtrip", category="exploration",
-        technique="property-based round-trip testing (ser/parse/ser idempotence, field-by-field equality, expectation trees), initial-solution reconstruction equality, CSV table model equality, structural JSON mutation",
+        technique="property-based round-trip testing (ser/parse/ser idempotence, field-by-field equality, expectation trees), initial-solution reconstruction equality, CSV table model equality, structural JSON mutation; thorough tier additionally: coverage-guided fuzzing (libFuzzer target pragmatic_values: ser/parse/ser idempotence on every mutated example document the parser accepts)",
         text="An every-optional-field generator and the valid-problem generator produce problem, matrix and solution documents (all Options, untagged/tagged variants, aliases, extreme floats and strings); ser(parse(ser(d))) == ser(d) with numbers within 1 ULP, parse(ser(d)) == d field by field and every set field present under its documented name; solver-written solutions are read back with read_init_solution and compared per vehicle shift (job, place tag, location, order) and unassigned set; generated CSV tables are imported and every cell is found again in a problem that passes validation; mutated raw JSON accepted by the parser must obey the law. Found and fixed four defects.",
         note="Trusted: expectation trees built by the generators; explicit null counts as absent; required breaks / clustering are outside the documented init-reader surface.",
         design_ref="4/C11"),
